@@ -16,8 +16,8 @@ package snacl
 //@   ensures fresh_nonce: randCtr == old(randCtr) + 1
 //@   ensures length: err == nil ==> len(out) == 24 + len(in) + 16
 //@   ensures nonce_prefix: err == nil ==> (forall i Int :: {out[i]} 0 <= i && i < 24 ==> out[i] == bat(randB(old(randCtr), 24), i))
-//@   ensures sealed_suffix: err == nil ==> (forall i Int :: {out[24+i]} 0 <= i && i < len(in) + 16 ==>
-//@       out[24+i] == bat(sealB(old(bytes(in)), randB(old(randCtr), 24), old(bytes(ck))), i))
+//@   ensures sealed_suffix: err == nil ==> (forall j Int :: {out[j]} 24 <= j && j < 24 + len(in) + 16 ==>
+//@       out[j] == bat(sealB(old(bytes(in)), randB(old(randCtr), 24), old(bytes(ck))), j - 24))
 //@   ensures failure: err != nil ==> out == nil
 //@   ensures input_untouched: forall i Int :: {in[i]} 0 <= i && i < len(in) ==> in[i] == old(in[i])
 
@@ -28,8 +28,8 @@ package snacl
 //@   replay snacl_decrypt.go
 //@   requires nonnil: ck != nil
 //@   ensures malformed: len(in) < 24 ==> err == ErrMalformed && out == nil
-//@   ensures gated_by_open: len(in) >= 24 ==> (err == nil) == openOk(old(bytes(sub(in, 24, len(in)))), old(bytes(sub(in, 0, 24))), old(bytes(ck)))
-//@   ensures content: len(in) >= 24 && err == nil ==> bytes(out) == openMsg(old(bytes(sub(in, 24, len(in)))), old(bytes(sub(in, 0, 24))), old(bytes(ck)))
+//@   ensures gated_by_open: len(in) >= 24 ==> (err == nil) == openOk(old(bytes(subslice(in, 24, len(in)))), old(bytes(subslice(in, 0, 24))), old(bytes(ck)))
+//@   ensures content: len(in) >= 24 && err == nil ==> bytes(out) == openMsg(old(bytes(subslice(in, 24, len(in)))), old(bytes(subslice(in, 0, 24))), old(bytes(ck)))
 //@   ensures no_data_on_failure: err != nil ==> out == nil
 //@   ensures failure_class: len(in) >= 24 && err != nil ==> err == ErrDecryptFailed
 
@@ -63,10 +63,10 @@ package snacl
 //@   requires nonnil: sk != nil
 //@   ensures length: len(r) == 88
 //@   ensures salt: forall i Int :: {r[i]} 0 <= i && i < 32 ==> r[i] == sk.Parameters.Salt[i]
-//@   ensures digest: forall i Int :: {r[32+i]} 0 <= i && i < 32 ==> r[32+i] == sk.Parameters.Digest[i]
-//@   ensures n: forall k Int :: {r[64+k]} 0 <= k && k < 8 ==> r[64+k] == le64byte(sk.Parameters.N < 0 ? sk.Parameters.N + 18446744073709551616 : sk.Parameters.N, k)
-//@   ensures r: forall k Int :: {r[72+k]} 0 <= k && k < 8 ==> r[72+k] == le64byte(sk.Parameters.R < 0 ? sk.Parameters.R + 18446744073709551616 : sk.Parameters.R, k)
-//@   ensures p: forall k Int :: {r[80+k]} 0 <= k && k < 8 ==> r[80+k] == le64byte(sk.Parameters.P < 0 ? sk.Parameters.P + 18446744073709551616 : sk.Parameters.P, k)
+//@   ensures digest: forall j Int :: {r[j]} 32 <= j && j < 64 ==> r[j] == sk.Parameters.Digest[j - 32]
+//@   ensures n: forall j Int :: {r[j]} 64 <= j && j < 72 ==> r[j] == le64byte(sk.Parameters.N < 0 ? sk.Parameters.N + 18446744073709551616 : sk.Parameters.N, j - 64)
+//@   ensures r: forall j Int :: {r[j]} 72 <= j && j < 80 ==> r[j] == le64byte(sk.Parameters.R < 0 ? sk.Parameters.R + 18446744073709551616 : sk.Parameters.R, j - 72)
+//@   ensures p: forall j Int :: {r[j]} 80 <= j && j < 88 ==> r[j] == le64byte(sk.Parameters.P < 0 ? sk.Parameters.P + 18446744073709551616 : sk.Parameters.P, j - 80)
 
 // Unmarshal: rejects every length other than 88 without touching the
 // parameters; otherwise reads the fields from exactly the Marshal layout.
@@ -103,5 +103,5 @@ package snacl
 //@ func (*SecretKey).Decrypt(sk, in) (out, err)
 //@   property C17
 //@   requires nonnil: sk != nil && sk.Key != nil
-//@   ensures gated_by_open: len(in) >= 24 ==> (err == nil) == openOk(old(bytes(sub(in, 24, len(in)))), old(bytes(sub(in, 0, 24))), old(bytes(sk.Key)))
+//@   ensures gated_by_open: len(in) >= 24 ==> (err == nil) == openOk(old(bytes(subslice(in, 24, len(in)))), old(bytes(subslice(in, 0, 24))), old(bytes(sk.Key)))
 //@   ensures no_data_on_failure: err != nil ==> out == nil
